@@ -60,6 +60,11 @@ extern UTIL_time_t g_displayClock;
 #define MIN(a,b)    ((a) < (b) ? (a) : (b))
 
 
+/* FIO_removeArtefact() : defined in fileio.c.
+ * Removes the destination file currently being written, if any,
+ * so that a fatal error does not leave a partial output behind. */
+void FIO_removeArtefact(void);
+
 #define EXM_THROW(error, ...)                                             \
 {                                                                         \
     DISPLAYLEVEL(1, "zstd: ");                                            \
@@ -67,6 +72,7 @@ extern UTIL_time_t g_displayClock;
     DISPLAYLEVEL(1, "error %i : ", error);                                \
     DISPLAYLEVEL(1, __VA_ARGS__);                                         \
     DISPLAYLEVEL(1, " \n");                                               \
+    FIO_removeArtefact();                                                 \
     exit(error);                                                          \
 }
 
